@@ -222,6 +222,24 @@ def one(emit, cid, clf, rng, sample):
                 if okq and K == 2:
                     o = np.argsort(linq[:, 0])
                     okq = not np.any(np.diff(Pq[o, 1]) < -1e-12)
+                if okq and K > 2 and scale <= 30.0:
+                    # within a row the probabilities are ordered like the decision values wherever the sigmoid itself
+                    # still separates them in double precision (two classes far on the same side must not be given the
+                    # same probability just because both are "small")
+                    from scipy.special import expit
+                    E_ = expit(linq)
+                    for i_ in range(linq.shape[0]):
+                        if np.max(np.abs(linq[i_])) > 600:
+                            continue
+                        o_ = np.argsort(linq[i_])
+                        strict = np.diff(E_[i_, o_]) > 0
+                        if np.any(np.diff(Pq[i_, o_])[strict] <= 0):
+                            viols.append(dict(common, mechanism="predict_proba-not-monotone", query_scale=scale,
+                                              detail="row %d: decision values %s get probabilities %s" % (
+                                                  i_, small(linq[i_, o_], 6), small(Pq[i_, o_], 6))))
+                            break
+                    if viols and viols[-1].get("mechanism") == "predict_proba-not-monotone":
+                        break
                 if not okq:
                     viols.append(dict(common, mechanism="predict_proba-not-a-distribution", query_scale=scale,
                                       detail="query points with |decision| up to %.3g: rows not finite / not summing to one / "
